@@ -24,7 +24,8 @@ META = dict(
 
 def tasks(tier):
     ts = [Task('props.C03:t_scaling', name='C03/scaling-lemmas', timeout=600),
-          Task('props.wire:run', name='C03/wire.compute_dt', fname='c03_compute_dt', timeout=300)]
+          Task('props.wire:run', name='C03/wire.compute_dt', fname='c03_compute_dt', timeout=300),
+          Task('props.wire:run', name='C03/wire.ensure_1arg_func', fname='c03_ensure_1arg_func', timeout=300)]
     for K in (1, 2, 3, 4, 5):
         ts.append(Task('props.C03:t_step', name='C03/wire.driver-step.%d' % K, K=K, timeout=600))
         ts.append(Task('props.C03:t_inject', name='C03/wire.inject.%d' % K, K=K, timeout=600))
